@@ -1974,11 +1974,11 @@ class DynamicSeedingInstrumentation(transformer.DynamicSeedingInstrumentationAda
     ) -> None:
         node.basic_block[before(instr_index + 2)] = (
             self.instructions_generator.generate_instructions(
-                InstrumentationSetupAction.ADD_FIRST_TWO_REVERSED,
+                InstrumentationSetupAction.COPY_FIRST_TWO,
                 InstrumentationMethodCall(
                     self._dynamic_constant_provider,
-                    DynamicConstantProvider.add_value.__name__,
-                    (InstrumentationStackValue.FIRST,),
+                    DynamicConstantProvider.add_value_for_startswith.__name__,
+                    (InstrumentationStackValue.SECOND, InstrumentationStackValue.FIRST),
                 ),
                 instr.lineno,
             )
@@ -1997,11 +1997,11 @@ class DynamicSeedingInstrumentation(transformer.DynamicSeedingInstrumentationAda
     ) -> None:
         node.basic_block[before(instr_index + 2)] = (
             self.instructions_generator.generate_instructions(
-                InstrumentationSetupAction.ADD_FIRST_TWO,
+                InstrumentationSetupAction.COPY_FIRST_TWO,
                 InstrumentationMethodCall(
                     self._dynamic_constant_provider,
-                    DynamicConstantProvider.add_value.__name__,
-                    (InstrumentationStackValue.FIRST,),
+                    DynamicConstantProvider.add_value_for_endswith.__name__,
+                    (InstrumentationStackValue.SECOND, InstrumentationStackValue.FIRST),
                 ),
                 instr.lineno,
             )
